@@ -50,6 +50,8 @@ def jobs(tier):
     # deep states reached by concrete prefixes, then a symbolic suffix
     for prefix, ac in (("stable", False), ("stable-hb", False), ("stable-commit-hb", True), ("rejoin-with-hb-pending", True)):
         out.append({"K": 5 if q else 6, "faults": 2, "leader": False, "stop": False, "prefix": prefix, "autocommit": ac})
+    # a retry back-off of zero (a legal setting): the rejoin must still happen
+    out.append({"K": 5 if q else 6, "faults": 2, "leader": False, "stop": False, "retry_s": 0.0})
     out.append({"kind": "leader", "generations": 2 if q else 3, "topic_error": True})
     return out
 
